@@ -75,3 +75,11 @@ mod tests {
         .unwrap();
     }
 }
+
+/// `(announced epoch << 1 | pinned, guard count, handle count)` of the calling thread's
+/// participant in the default collector, or `None` if its handle has already been destroyed.
+/// Like `cs()`, the first call on a thread registers its participant.
+#[cfg(circ_verif)]
+pub fn verif_local_state() -> Option<(usize, usize, usize)> {
+    HANDLE.try_with(|h| h.verif_state()).ok()
+}
